@@ -55,3 +55,8 @@ func H_AmmJoin_WithPerpetualPositions() { h_c09.H_AmmJoin_KeepsAccountedPool() }
 //vrf:bound see h_c10.H_Perp_ClosePositions_SamePositionThrice_Ledger
 //vrf:max-paths 6000
 func H_ClosePositions_SamePositionRepeated() { h_c10.H_Perp_ClosePositions_SamePositionThrice_Ledger() }
+
+//vrf:cover open-ok
+//vrf:bound see h_c09.H_Open_Consolidate_Long
+//vrf:max-paths 8000
+func H_Open_Consolidate_Long() { h_c09.H_Open_Consolidate_Long() }
